@@ -27,8 +27,11 @@ def cases(tier, seed):
                 break
         out.append({'prop': ID, 'seed': seed, 'idx': i, 'family': fam})
     from ..witness import WITNESSES
-    return [{'prop': ID, 'seed': seed, 'idx': 10 ** 6 + i, 'witness': i} for i in range(len(WITNESSES))] + out
+    return ([{'prop': ID, 'seed': seed, 'idx': 10 ** 6 + i, 'witness': i} for i in range(len(WITNESSES))]
+            + opcommon.big_cases(ID, tier, seed) + out)
 
 
 def run_case(case):
+    if case.get('big'):
+        return opcommon.run_big_case(case, ID, CONFIGS, WEAKLY)
     return opcommon.run_operator_case(case, ID, CONFIGS, WEAKLY, WANT, nq=10)
